@@ -135,7 +135,7 @@ Definition handle_initial_connection (s : pm) (p : N) : pm * bool :=
 Definition handle_peer_disconnect (s : pm) (p : N) : pm * bool :=
   if negb (is_reserved s p) then
     let all_slots_taken :=
-      (max_non_reserved_peers s =? sat_add usizemax (len (non_reserved_connected_peers s)) 1)%N in
+      (max_non_reserved_peers s =? len (non_reserved_connected_peers s))%N in
     let removed := contains_key (non_reserved_connected_peers s) p in
     let s1 := set_non_reserved s (remove_key (non_reserved_connected_peers s) p) in
     (if removed && all_slots_taken then set_allowed s1 true else s1, false)
